@@ -118,6 +118,11 @@ pub fn minimise(case: &Case, class: &str) -> (Case, String, u64) {
         c.client = Client::Iterate;
         m.try_case(&c);
     }
+    if m.best.keep_tags {
+        let mut c = m.best.clone();
+        c.keep_tags = false;
+        m.try_case(&c);
+    }
     if m.best.extra_calls > 0 {
         let mut c = m.best.clone();
         c.extra_calls = 0;
